@@ -414,6 +414,12 @@ impl Simulation {
             }
         };
 
+        // A terminated simulation must neither advance time nor process
+        // actions.
+        if self.is_terminated {
+            return Err(ExecutionError::Terminated);
+        }
+
         // Move to the next scheduled time.
         let mut scheduler_queue = self.scheduler_queue.lock().unwrap();
         let mut current_key = match peek_next_key(&mut scheduler_queue) {
